@@ -81,8 +81,15 @@ def contracts():
                        track_log=True))
     cs.append(Contract(target="core:Wtp.get_page_resolve_redirect", prop="C10", mode="value",
                        params={"title": "str", "namespace_id": "int"}, requires=["memo_coherent()"],
-                       ensures=["logged('get_page') <= 2"], raises=["sqlite3.ProgrammingError"],
-                       track_log=True))
+                       # at most one hop: the title as given in the caller's namespace, then -- for a redirect -- its
+                       # target in the SAME caller-given namespace with no_redirect=True; never itself again
+                       ensures=["logged('get_page') <= 2", "logged('get_page') >= 1",
+                                "logged('get_page_resolve_redirect') == 0",
+                                "same_object(call_arg('get_page', 0, 0), title)",
+                                "same_object(call_arg('get_page', 0, 1), namespace_id)",
+                                "implies(logged('get_page') == 2, same_object(call_arg('get_page', 1, 1), namespace_id))",
+                                "implies(logged('get_page') == 2, call_arg('get_page', 1, 2) == True)"],
+                       raises=["sqlite3.ProgrammingError"], track_log=True))
     cs.append(Contract(
         target="core:Wtp.add_page", variant="plain_name", prop="C10", mode="value",
         params={"title": "str", "namespace_id": "int", "body": "str", "redirect_to": "none",
